@@ -2483,10 +2483,14 @@ class RedunBackendDb(RedunBackend):
         for pair in call_task_pairs:
             call_node2task_hashes[pair.call_hash].add(pair.task_hash)
 
+        # A completely recorded CallNode lists at least its own task. A CallNode without any
+        # CallSubtreeTask (interrupted recording, or records imported from another repo) cannot
+        # be checked against the current tasks, so it is not used for ultimate reduction.
         current_call_nodes = [
             call_node
             for call_node in call_nodes
-            if call_node2task_hashes[call_node.call_hash] <= scheduler_task_hashes
+            if call_node2task_hashes[call_node.call_hash]
+            and call_node2task_hashes[call_node.call_hash] <= scheduler_task_hashes
         ]
 
         if current_call_nodes:
